@@ -42,6 +42,8 @@ type C15Req struct {
 	HeadCL   int         `json:"headcl,omitempty"`  // HEAD / 304 in cl mode: the Content-Length announced for the body that is not sent
 	// CloseBody: the handler calls r.Body.Close() when it is done with the request (the usual defer)
 	CloseBody bool `json:"closebody,omitempty"`
+	// Again: after the header is out the handler calls WriteHeader once more with this status (ignored by the contract of http.ResponseWriter)
+	Again int `json:"again,omitempty"`
 	// Trailer (chunked responses): the handler announces the trailer field X-Sum and sets it after writing the body
 	Trailer bool `json:"trailer,omitempty"`
 }
@@ -109,6 +111,9 @@ func genC15Req(t *rapid.T) C15Req {
 	}
 	if r.Mode != "chunked" || bodiless {
 		r.Trailer = false
+	}
+	if rapid.IntRange(0, 5).Draw(t, "again") == 0 {
+		r.Again = rapid.SampledFrom([]int{200, 204, 304, 500, 100}).Draw(t, "againstatus")
 	}
 	for i := 0; i <= len(r.Writes); i++ {
 		if rapid.IntRange(0, 4).Draw(t, "flush") == 0 {
@@ -282,10 +287,16 @@ func runC15(c C15Case) (out core.Outcome) {
 		if flushAt[0] {
 			w.(http.Flusher).Flush()
 		}
+		if q.Again != 0 && (q.Status != 0 || flushAt[0]) {
+			w.WriteHeader(q.Again) // superfluous: the header is out
+		}
 		off := 0
 		for k, n := range q.Writes {
 			_, _ = w.Write(c15RespBody(i, off, n))
 			off += n
+			if k == 0 && q.Again != 0 {
+				w.WriteHeader(q.Again) // superfluous: the header went out with the first write at the latest
+			}
 			if flushAt[k+1] {
 				w.(http.Flusher).Flush()
 			}
@@ -384,6 +395,9 @@ func runC15(c C15Case) (out core.Outcome) {
 		cls.Add("resp:%s", q.Mode)
 		if (q.Method == "HEAD" || q.Status == 204 || q.Status == 304) && len(q.Writes) > 0 {
 			cls.Add("handler-writes-body-where-none-is-allowed")
+		}
+		if q.Again != 0 {
+			cls.Add("superfluous-writeheader")
 		}
 		if q.CloseBody && i+1 < served {
 			cls.Add("handler-closes-body-then-request")
